@@ -226,10 +226,12 @@ pub fn build(s: &Spec) -> Foreign {
     let (es, data) = tiles_of(s);
     let root = tree_of(s.shape, &es);
     let lay = Layout { order: ORDERS[s.order % 6], gap: s.gap, root_gap: s.root_gap, leaves_child_first: s.level_order, leaf_gap: if s.gap == 13 { 2 } else { 0 } };
+    let big = big_meta(s.meta);
     let meta: Option<&[u8]> = match s.meta {
         0 => None,
         1 => Some(b"{}"),
         3 => Some(META_SPACED.as_bytes()),
+        4..=7 => Some(big.as_bytes()),
         _ => Some(META_OBJECT.as_bytes()),
     };
     let mut f = crate::spec::codec::with_variant(s.cv, || encode_foreign(&root, &data, meta, s.comp, &lay, header_variant(s.hv)));
@@ -269,7 +271,24 @@ pub fn mixed_shorthand(comp: u8) -> Foreign {
     f
 }
 
+/// metadata documents around and above the 2048-byte buffer an opening reads metadata into: exactly 2048, 2049 and
+/// 4097 bytes, and 70 KB (kinds 4..7)
+pub fn big_meta(kind: u8) -> String {
+    let total = match kind {
+        4 => 2048usize,
+        5 => 2049,
+        6 => 4097,
+        7 => 70_000,
+        _ => return String::new(),
+    };
+    let frame = r#"{"blob":""}"#.len();
+    format!(r#"{{"blob":"{}"}}"#, "m".repeat(total - frame))
+}
+
 pub fn expected_meta(s: &Spec) -> serde_json::Map<String, Value> {
+    if (4..=7).contains(&s.meta) {
+        return serde_json::from_str::<Value>(&big_meta(s.meta)).unwrap().as_object().unwrap().clone();
+    }
     match s.meta {
         2 => serde_json::from_str::<Value>(META_OBJECT).unwrap().as_object().unwrap().clone(),
         3 => serde_json::json!({"k\u{e9}": [1, 2.5, 100.0, -0.0, 0.01], "s": "A\n/", "o": {}, "t": true}).as_object().unwrap().clone(),
@@ -320,6 +339,14 @@ pub fn product(thorough: bool) -> Vec<Spec> {
                     }
                 }
             }
+        }
+    }
+    // metadata of exactly 2048 / 2049 / 4097 bytes and of 70 KB
+    let bigm: Vec<Spec> = out.iter().filter(|s| s.n == 3 && s.meta == 2 && s.gap == 0 && s.order < 3 && s.run == 1 && s.offs == Offs::Contiguous && matches!(s.shape, Shape::RootOnly | Shape::Leaves)).cloned().collect();
+    for mut s in bigm {
+        for m in 4..=7u8 {
+            s.meta = m;
+            out.push(s.clone());
         }
     }
     // the same content from encoders with other parameters (maximum and minimum settings, see spec::codec)
